@@ -62,7 +62,7 @@ Definition to_obs (r : res (option field)) : sobs :=
 
 Definition smodel (c : scase) : sobs :=
   to_obs match sc_ctx c with
-         | CxAnnot => convert_opt (sc_ty c)
+         | CxAnnot => convert_annot (sc_ty c)
          | CxAssign => convert_assign (sc_ty c)
          | CxSub => f <- convert_sub (sc_ty c) ;; Ok (Some f)
          end.
